@@ -15,7 +15,10 @@ QUIET = ('cancelled', 'closed', 'volclosed', 'genexit', 'signal')
 def cases(draw, tier):
     c = draw(scope_programs(tier, fail=5, volatile=2, until=2, late_spawn=1, priv=2, finally_spawn=0,
                             nocatch=2, uncaught_blocks=5, finally_raise=2))
-    c['faults'] = draw(fault_strategy(c['targets'], n=3))
+    if tier == 'thorough' and draw(st.integers(0, 3)) == 0:
+        c['faults'] = 'all'
+    else:
+        c['faults'] = draw(fault_strategy(c['targets'], n=3))
     return c
 
 
@@ -173,7 +176,12 @@ class C05(Check):
         out.evals = 1
         judge(out, prog, it, oc, exc, ' faults=None')
         N = p.k
-        for f in case['faults']:
+        if case['faults'] == 'all':
+            plan = [{'k': k, 'target': t, 'token': [100]} for t in case['targets'] for k in range(N + 1)][:800]
+            out.features.add('exhaustive_k')
+        else:
+            plan = case['faults']
+        for f in plan:
             faults = [dict(f, k=f['k'] % (N + 1))]
             it, oc, exc, p = execute(prog, mk(), faults=faults)
             out.evals += 1
